@@ -186,6 +186,11 @@ def prepare_unit(unit, scratch, mutate=None):
         try:
             if sl.get('kind') == 'lines':
                 body, l0, l1 = extract.slice_lines(text, sl['start'], sl.get('last'), 'in ' + sl['file'])
+            elif sl.get('optional') and not re.search(sl['start'], text, re.M):
+                # a helper that exists only in some versions of the source: absent -> empty slice (its callers then fail to
+                # compile or verify on their own merits)
+                body, l0, l1 = '// (optional slice %s: not present in this version of %s)' % (sl['id'], sl['file']), 0, 0
+                sl = dict(sl, rewrites=[])
             else:
                 body, l0, l1 = extract.slice_definition(text, sl['start'], sl.get('occurrence', 0), 'in ' + sl['file'])
             if mutate and mutate.get('slice') == sl['id']:
